@@ -414,4 +414,185 @@ theorem network_reserialise (o : L1) (h : NetworkWF o) : networkToDict (rp1 o) =
     rfl
   · rfl
 
+/-! ## spaces: grid and graph (dispatch on "type") -/
+
+theorem spaceFromDict_grid (parent : Sys) (base : Option String) (fs : FS) (kv : KV)
+    (h : kv.lookup "type" = some (.str "grid")) :
+    spaceFromDict parent base fs (.obj kv) =
+      (gridFromDict parent base fs (.obj kv)).map fun o => ("type", .str "grid") :: o := by
+  simp [spaceFromDict, h]
+
+theorem spaceFromDict_graph (parent : Sys) (base : Option String) (fs : FS) (kv : KV)
+    (h : kv.lookup "type" = some (.str "graph")) :
+    spaceFromDict parent base fs (.obj kv) =
+      (graphFromDict parent base fs (.obj kv)).map fun o => ("type", .str "graph") :: o := by
+  have : ¬ ("graph" = "grid") := by decide
+  simp [spaceFromDict, h, this]
+
+def gridObj (us : Sys) (w h d : Int) (envs : List Int) (vol : UVal) (a b z : String) : L1 :=
+  [("type", .str "grid"), ("units_system", .sys us), ("w", .int w), ("h", .int h), ("d", .int d), ("cell_env", .ints envs),
+   ("cell_vol", .qty vol), ("boundary_conditions", .raw (.obj [("x", .str a), ("y", .str b), ("z", .str z)]))]
+
+def GridWF (o : L1) : Prop :=
+  ∃ us w h d envs vol a b z, o = gridObj us w h d envs vol a b z ∧ us.valid = true ∧ 0 < w ∧ 0 < h ∧ 0 < d ∧
+    envs.length = (w * h * d).toNat ∧ vol.u.sys.valid = true ∧ vol.u.dim = Dim.volume ∧
+    DictKeys.bcValues.contains a = true ∧ DictKeys.bcValues.contains b = true ∧ DictKeys.bcValues.contains z = true
+
+theorem gridFields_eq : gridFields =
+    [⟨"w", "w", .int, some (.num 1)⟩, ⟨"h", "h", .int, some (.num 1)⟩, ⟨"d", "d", .int, some (.num 1)⟩,
+     ⟨"cell_env", "cell_env", .intOrInts, some (.num 0)⟩, ⟨"cell_volume", "cell_vol", .qty Dim.volume, some (.num 1)⟩,
+     ⟨"boundary_conditions", "boundary_conditions", .bc, some .null⟩] := by rfl
+
+/-- grid: sizes, environment map, cell volume (own units), all eight boundary-condition combinations -/
+theorem grid_roundtrip (parent : Sys) (base : Option String) (fs : FS) (o : L1) (hwf : GridWF o) :
+    spaceFromDict parent base fs (spaceToDict o) = .ok (rp1 o) := by
+  obtain ⟨us, w, h, d, envs, vol, a, b, z, rfl, hus, hw, hh, hd, hlen, hv, hvd, ha, hb, hz⟩ := hwf
+  have hto : spaceToDict (gridObj us w h d envs vol a b z) = gridToDict (gridObj us w h d envs vol a b z) := rfl
+  rw [hto]
+  unfold gridToDict
+  rw [gridFields_eq, toDictG_eq, spaceFromDict_grid _ _ _ _ rfl, ← toDictG_eq]
+  unfold gridFromDict
+  rw [gridFields_eq]
+  let g : Field → Val L0 := fun f =>
+    if f.param == "w" then .int w else if f.param == "h" then .int h else if f.param == "d" then .int d
+    else if f.param == "cell_env" then .ints envs else if f.param == "cell_vol" then .qty (reparse vol)
+    else .raw (.obj [("x", .str a), ("y", .str b), ("z", .str z)])
+  have := generic_roundtrip DictKeys.grid
+    [⟨"w", "w", .int, some (.num 1)⟩, ⟨"h", "h", .int, some (.num 1)⟩, ⟨"d", "d", .int, some (.num 1)⟩,
+     ⟨"cell_env", "cell_env", .intOrInts, some (.num 0)⟩, ⟨"cell_volume", "cell_vol", .qty Dim.volume, some (.num 1)⟩,
+     ⟨"boundary_conditions", "boundary_conditions", .bc, some .null⟩]
+    [("type", .str "grid")] none parent base fs level0Child (fun _ => Json.null) (gridObj us w h d envs vol a b z) g
+    ["type", "units", "w", "h", "d", "cell_env", "cell_volume", "boundary_conditions"] rfl
+    (by decide +kernel) (by decide +kernel) (by decide +kernel)
+    (readUnits_write parent _ us hus) (by
+      intro f hfm
+      simp only [List.mem_cons, List.not_mem_nil, or_false] at hfm
+      rcases hfm with rfl | rfl | rfl | rfl | rfl | rfl
+      · exact readKind_int _ _ _ w
+      · exact readKind_int _ _ _ h
+      · exact readKind_int _ _ _ d
+      · exact readKind_intOrInts _ _ _ envs
+      · exact readKind_qty_write _ _ _ _ vol (printable_of_valid _ hv) hvd
+      · exact readKind_bc _ _ _ a b z ha hb hz)
+  rw [this]
+  have hfin : finishGrid ([("units_system", .sys us), ("w", .int w), ("h", .int h), ("d", .int d), ("cell_env", .ints envs),
+      ("cell_vol", .qty (reparse vol)), ("boundary_conditions", .raw (.obj [("x", .str a), ("y", .str b), ("z", .str z)]))] : L1) =
+      .ok [("units_system", .sys us), ("w", .int w), ("h", .int h), ("d", .int d), ("cell_env", .ints envs),
+      ("cell_vol", .qty (reparse vol)), ("boundary_conditions", .raw (.obj [("x", .str a), ("y", .str b), ("z", .str z)]))] := by
+    have e1 : ¬ (w ≤ 0) := by omega
+    have e2 : ¬ (h ≤ 0) := by omega
+    have e3 : ¬ (d ≤ 0) := by omega
+    simp [finishGrid, getInt, List.lookup, e1, e2, e3, hlen]
+  have hcore : ((("units_system", Val.sys (objSys (gridObj us w h d envs vol a b z))) :: List.map (fun f => (f.param, g f))
+      [⟨"w", "w", .int, some (.num 1)⟩, ⟨"h", "h", .int, some (.num 1)⟩, ⟨"d", "d", .int, some (.num 1)⟩,
+       ⟨"cell_env", "cell_env", .intOrInts, some (.num 0)⟩, ⟨"cell_volume", "cell_vol", .qty Dim.volume, some (.num 1)⟩,
+       ⟨"boundary_conditions", "boundary_conditions", .bc, some .null⟩]) : L1) =
+      [("units_system", .sys us), ("w", .int w), ("h", .int h), ("d", .int d), ("cell_env", .ints envs),
+       ("cell_vol", .qty (reparse vol)), ("boundary_conditions", .raw (.obj [("x", .str a), ("y", .str b), ("z", .str z)]))] := rfl
+  show Except.map _ (finishGrid _) = _
+  rw [hcore, hfin]
+  rfl
+
+theorem grid_reserialise (o : L1) (hwf : GridWF o) : spaceToDict (rp1 o) = spaceToDict o := by
+  obtain ⟨us, w, h, d, envs, vol, a, b, z, rfl, _, _, _, _, _, hv, _, _, _, _⟩ := hwf
+  have h1 : spaceToDict (rp1 (gridObj us w h d envs vol a b z)) = gridToDict (rp1 (gridObj us w h d envs vol a b z)) := rfl
+  have h2 : spaceToDict (gridObj us w h d envs vol a b z) = gridToDict (gridObj us w h d envs vol a b z) := rfl
+  rw [h1, h2]
+  unfold gridToDict
+  rw [gridFields_eq]
+  refine toDictG_reparse _ _ _ _ _ _ ?_
+  intro f hfm
+  simp only [List.mem_cons, List.not_mem_nil, or_false] at hfm
+  rcases hfm with rfl | rfl | rfl | rfl | rfl | rfl
+  · rfl
+  · rfl
+  · rfl
+  · rfl
+  · exact (quantity_physical vol hv).2.2.2
+  · rfl
+
+/-! ### graph: nodes and edges with their own units systems or the graph's -/
+
+def graphObj (us : Sys) (nodes edges : List L0) : L1 :=
+  [("type", .str "graph"), ("units_system", .sys us), ("nodes", .children nodes), ("edges", .children edges)]
+
+def GraphWF (o : L1) : Prop :=
+  ∃ us nodes edges, o = graphObj us nodes edges ∧ us.valid = true ∧ (∀ c ∈ nodes, NodeWF c) ∧ (∀ c ∈ edges, EdgeWF c)
+
+theorem graphFields_eq : graphFields =
+    [⟨"nodes", "nodes", .children "node", none⟩, ⟨"edges", "edges", .children "edge", none⟩] := by rfl
+
+theorem writeL0_node (us : Sys) (c : L0) (h : NodeWF c) : writeL0 us c = nodeToDict us c := by
+  obtain ⟨_, _, _, rfl, _⟩ := h; rfl
+
+theorem writeL0_edge (us : Sys) (c : L0) (h : EdgeWF c) : writeL0 us c = edgeToDict us c := by
+  obtain ⟨_, _, _, _, _, rfl, _⟩ := h; rfl
+
+theorem graph_roundtrip (parent : Sys) (base : Option String) (fs : FS) (o : L1) (hwf : GraphWF o) :
+    spaceFromDict parent base fs (spaceToDict o) = .ok (rp1 o) := by
+  obtain ⟨us, nodes, edges, rfl, hus, hn, he⟩ := hwf
+  have hto : spaceToDict (graphObj us nodes edges) = graphToDict (graphObj us nodes edges) := rfl
+  rw [hto]
+  unfold graphToDict
+  have hsys : objSys (graphObj us nodes edges) = us := rfl
+  rw [graphFields_eq, hsys, toDictG_eq, spaceFromDict_graph _ _ _ _ rfl, ← toDictG_eq]
+  unfold graphFromDict
+  rw [graphFields_eq]
+  let g : Field → Val L0 := fun f =>
+    if f.param == "nodes" then .children (nodes.map rp0) else .children (edges.map rp0)
+  have := generic_roundtrip DictKeys.graph
+    [⟨"nodes", "nodes", .children "node", none⟩, ⟨"edges", "edges", .children "edge", none⟩]
+    [("type", .str "graph")] none parent base fs level0Child (writeL0 us) (graphObj us nodes edges) g
+    ["type", "units", "nodes", "edges"] rfl (by decide +kernel) (by decide +kernel) (by decide +kernel)
+    (readUnits_write parent _ us hus) (by
+      intro f hfm
+      simp only [List.mem_cons, List.not_mem_nil, or_false] at hfm
+      rcases hfm with rfl | rfl
+      · refine readKind_children _ _ (writeL0 us) "node" nodes rp0 ?_
+        intro c hc
+        show level0Child "node" us base (writeL0 us c) = _
+        rw [writeL0_node us c (hn c hc), level0Child_node]
+        exact node_roundtrip us c (hn c hc)
+      · refine readKind_children _ _ (writeL0 us) "edge" edges rp0 ?_
+        intro c hc
+        show level0Child "edge" us base (writeL0 us c) = _
+        rw [writeL0_edge us c (he c hc), level0Child_edge]
+        exact edge_roundtrip us c (he c hc))
+  rw [this]
+  rfl
+
+theorem graph_reserialise (o : L1) (hwf : GraphWF o) : spaceToDict (rp1 o) = spaceToDict o := by
+  obtain ⟨us, nodes, edges, rfl, _, hn, he⟩ := hwf
+  have h1 : spaceToDict (rp1 (graphObj us nodes edges)) = graphToDict (rp1 (graphObj us nodes edges)) := rfl
+  have h2 : spaceToDict (graphObj us nodes edges) = graphToDict (graphObj us nodes edges) := rfl
+  rw [h1, h2]
+  unfold graphToDict
+  rw [graphFields_eq, objSys_reparseObj]
+  have hsys : objSys (graphObj us nodes edges) = us := rfl
+  rw [hsys]
+  refine toDictG_reparse _ _ _ _ _ _ ?_
+  intro f hfm
+  simp only [List.mem_cons, List.not_mem_nil, or_false] at hfm
+  rcases hfm with rfl | rfl
+  · show Json.arr _ = Json.arr _
+    congr 1
+    rw [List.map_map]
+    apply List.map_congr_left
+    intro c hc
+    simp only [Function.comp]
+    obtain ⟨us', vol, env, rfl, hus', hv, hd⟩ := hn c hc
+    have e : writeL0 us (rp0 (nodeObj us' vol env)) = nodeToDict us (rp0 (nodeObj us' vol env)) := rfl
+    rw [e, node_reserialise us _ ⟨us', vol, env, rfl, hus', hv, hd⟩]
+    rfl
+  · show Json.arr _ = Json.arr _
+    congr 1
+    rw [List.map_map]
+    apply List.map_congr_left
+    intro c hc
+    simp only [Function.comp]
+    obtain ⟨us', i, j, surf, dist, rfl, hus', h1', h2', h3', h4'⟩ := he c hc
+    have e : writeL0 us (rp0 (edgeObj us' i j surf dist)) = edgeToDict us (rp0 (edgeObj us' i j surf dist)) := rfl
+    rw [e, edge_reserialise us _ ⟨us', i, j, surf, dist, rfl, hus', h1', h2', h3', h4'⟩]
+    rfl
+
 end Strengths.C12
